@@ -3,7 +3,8 @@
             CONC P <n> <entry>*n O <m> <mutop>*m
      entry: <kind> <codeI> <codeO> <inst> <beh> <nm> <mop>*nm
             kind fi fo t ti to pi po bad ; beh P S E A F K
-            a call whose context is done carries the marker 9001 / 9002 as its first token
+            a call whose context is done carries the marker 9001 / 9002 as its first token,
+            then 8001 / 8002 when the method called is fail / boom
      mop  : U|X c|s <k> <ix>*k          op : mop | C <k> <tok>*k
    output : SEQ  : outcome of each op joined by " | ", then
                    " || final CI=.. CO=.. SO=.. SI=.. || lists CI=.. .. || specagree=<bool>"
@@ -77,7 +78,7 @@ let rec parse_ops k rest =
 let toks l = "(" ^ String.concat "," (Stdlib.List.map sn l) ^ ")"
 let layer_s = function Onion.LCI -> "CI" | Onion.LCO -> "CO" | Onion.LSO -> "SO" | Onion.LSI -> "SI"
 let res_s = function
-  | Onion.ROk t -> "ok" ^ toks t | Onion.RErr e -> "err(" ^ sn e ^ ")"
+  | Onion.ROk t -> "ok" ^ toks t | Onion.RErr e -> "err(" ^ sn e ^ ")" | Onion.RWire e -> "werr(" ^ sn e ^ ")"
   | Onion.RPanic -> "panic" | Onion.RStuck -> "stuck"
 let ev_s = function
   | Onion.EEnter (l, i, r) -> "+" ^ layer_s l ^ "." ^ sn i ^ toks r
